@@ -29,6 +29,9 @@ func genRace(r *Rng, prop string) *Scenario {
 		actor++
 		op.Actor = actor
 		sc.Ops = append(sc.Ops, op)
+		if op.Kind == "ping" && op.Token == "precancel" && op.OnDial == 0 {
+			sc.Ops = append(sc.Ops, Op{AtUs: op.AtUs, Actor: -1, Kind: "cancel", Target: len(sc.Ops) - 1})
+		}
 	}
 	tok := 0
 	request := func(t int64, direct bool) Op {
@@ -46,6 +49,9 @@ func genRace(r *Rng, prop string) *Scenario {
 			op.Kind, op.Topics = "unsubscribe", []string{filters[r.IntN(len(filters))]}
 		case 3:
 			op.Kind = "ping"
+			if r.chance(0.5) {
+				op.Token = "precancel" // called with a context that is already cancelled: given up at once
+			}
 		case 4:
 			op.Kind, op.Repeat = "probe", int(r.between(1, 40))
 		case 5:
